@@ -80,6 +80,15 @@ EncByte(v, k) ==
 \* @type: <<Int, Int>> => Int;
 EncLen(v) == StripLen(B128Septets(v))
 
+\* StripZeros and the continuation bits by cases: <<length, byte 1, .., byte 5>> (0 beyond the length)
+\* @type: <<Int, Int, Int, Int, Int>> => <<Int, Int, Int, Int, Int, Int>>;
+EncCases(q) ==
+  IF q[1] # 0 THEN <<5, q[1] + 128, q[2] + 128, q[3] + 128, q[4] + 128, q[5]>>
+  ELSE IF q[2] # 0 THEN <<4, q[2] + 128, q[3] + 128, q[4] + 128, q[5], 0>>
+  ELSE IF q[3] # 0 THEN <<3, q[3] + 128, q[4] + 128, q[5], 0, 0>>
+  ELSE IF q[4] # 0 THEN <<2, q[4] + 128, q[5], 0, 0, 0>>
+  ELSE <<1, q[5], 0, 0, 0, 0>>
+
 \* ---- the mathematics the lemmas compare with
 \* index of the first byte without the continuation bit among b1..b5 (6: none)
 Term(b1, b2, b3, b4, b5) ==
